@@ -110,13 +110,31 @@ pub struct BfsResult {
     pub levels: Vec<serde_json::Value>,
 }
 
+/// 128-bit digest of a canonical state key (two independently keyed 64-bit hashes). States are deduplicated on the
+/// digest, not on the key text: two different states are merged only if both hashes collide (probability
+/// ~ n^2 / 2^129, i.e. < 1e-22 for the 5e7 states of the deepest run), which would only make the search stop early at
+/// one state - every transition is still judged on the real pre- and post-state, never on the digest.
+pub fn key128(key: &str) -> u128 {
+    use std::hash::{Hash, Hasher};
+    let mut h1 = std::collections::hash_map::DefaultHasher::new();
+    0x9e37_79b9_7f4a_7c15u64.hash(&mut h1);
+    key.hash(&mut h1);
+    let mut h2 = std::collections::hash_map::DefaultHasher::new();
+    key.len().hash(&mut h2);
+    key.hash(&mut h2);
+    0x2545_f491_4f6c_dd1du64.hash(&mut h2);
+    ((h1.finish() as u128) << 64) | h2.finish() as u128
+}
+
+type Acc = (Stats, Vec<(u128, Vec<Op>)>, HashSet<u128>);
+
 pub fn bfs(ctx: &Ctx, oracle: &dyn Oracle, starts: &[Start], depth: usize) -> BfsResult {
     let mut total = Stats::default();
     let mut states: u64 = 0;
     let mut transitions: u64 = 0;
     let mut levels = vec![];
     for start in starts {
-        let mut visited: HashSet<String> = HashSet::new();
+        let mut visited: HashSet<u128> = HashSet::new();
         let (w0, f0) = match replay_world(start, &[]) {
             Some(x) => x,
             None => {
@@ -124,7 +142,7 @@ pub fn bfs(ctx: &Ctx, oracle: &dyn Oracle, starts: &[Start], depth: usize) -> Bf
                 std::process::exit(2);
             }
         };
-        visited.insert(state_key(&w0, &f0));
+        visited.insert(key128(&state_key(&w0, &f0)));
         let mut frontier: Vec<Vec<Op>> = vec![vec![]];
         for d in 0..depth {
             if ctx.expired() {
@@ -151,78 +169,95 @@ pub fn bfs(ctx: &Ctx, oracle: &dyn Oracle, starts: &[Start], depth: usize) -> Bf
                     lo += CHUNK;
                 }
             }
-            let results: Vec<(Stats, Vec<(String, Vec<Op>)>)> = items
+            // results are folded as they are produced (nothing per transition is kept): successor histories for the
+            // next level, or - on the last level - only the digests of the states reached
+            let visited_ref = &visited;
+            let frontier_ref = &frontier;
+            let (level_stats, succ, last_keys): Acc = items
                 .par_iter()
-                .map(|(hi, lo, hi_end)| {
-                    let hist = &frontier[*hi];
-                    let mut st = Stats::default();
-                    let mut succ = vec![];
-                    if ctx.expired() {
-                        st.capped = true;
-                        return (st, succ);
-                    }
-                    let Some((w, f)) = replay_world(start, hist) else {
-                        st.bump("replay_failed");
-                        return (st, succ);
-                    };
-                    let ops = oracle.ops(&w, &f, d);
-                    watch_phase(&format!("bfs start={} depth={} history={:?}", start.name, d + 1, hist));
-                    watch_begin(*lo as u64, *hi_end as u64);
-                    for op in ops[*lo..*hi_end].iter().cloned() {
-                        let (v, post, post_forest) = run_step(oracle, &w, &f, &op, &mut st);
-                        st.bump("transitions");
-                        if !v.fails.is_empty() {
-                            let mut ops = hist.clone();
-                            ops.push(op.clone());
-                            let case = HistoryCase { start: start.clone(), ops };
-                            for fl in v.fails {
-                                st.fail(&case, fl);
-                            }
-                        } else if v.expand {
-                            if let Ok(pf) = &post_forest {
-                                let key = state_key(&post, pf);
-                                st.outcome(&key);
-                                if !last_level {
-                                    let mut ops = hist.clone();
-                                    ops.push(op.clone());
-                                    succ.push((key, ops));
-                                } else {
-                                    succ.push((key, vec![]));
+                .fold(
+                    || (Stats::default(), Vec::new(), HashSet::new()),
+                    |(acc_st, mut acc_succ, mut acc_keys): Acc, (hi, lo, hi_end)| {
+                        let hist = &frontier_ref[*hi];
+                        let mut st = Stats::default();
+                        if ctx.expired() {
+                            st.capped = true;
+                            return (acc_st.merge(st), acc_succ, acc_keys);
+                        }
+                        let Some((w, f)) = replay_world(start, hist) else {
+                            st.bump("replay_failed");
+                            return (acc_st.merge(st), acc_succ, acc_keys);
+                        };
+                        let ops = oracle.ops(&w, &f, d);
+                        watch_phase(&format!("bfs start={} depth={} history={:?}", start.name, d + 1, hist));
+                        watch_begin(*lo as u64, *hi_end as u64);
+                        for op in ops[*lo..*hi_end].iter().cloned() {
+                            let (v, post, post_forest) = run_step(oracle, &w, &f, &op, &mut st);
+                            st.bump("transitions");
+                            if !v.fails.is_empty() {
+                                let mut ops = hist.clone();
+                                ops.push(op.clone());
+                                let case = HistoryCase { start: start.clone(), ops };
+                                for fl in v.fails {
+                                    st.fail(&case, fl);
+                                }
+                            } else if v.expand {
+                                if let Ok(pf) = &post_forest {
+                                    let key = key128(&state_key(&post, pf));
+                                    st.outcome(&key);
+                                    if visited_ref.contains(&key) {
+                                        // known state
+                                    } else if !last_level {
+                                        let mut ops = hist.clone();
+                                        ops.push(op.clone());
+                                        acc_succ.push((key, ops));
+                                    } else {
+                                        acc_keys.insert(key);
+                                    }
                                 }
                             }
+                            if st.evals % 50_000 == 17 {
+                                let pre_show: Vec<String> = f.iter().map(|t| t.show()).collect();
+                                st.sample(|| serde_json::json!({"start": start.name, "history": format!("{:?}", hist), "state": pre_show, "op": format!("{:?}", op)}));
+                            }
                         }
-                        if st.evals % 50_000 == 17 {
-                            let pre_show: Vec<String> = f.iter().map(|t| t.show()).collect();
-                            st.sample(|| serde_json::json!({"start": start.name, "history": format!("{:?}", hist), "state": pre_show, "op": format!("{:?}", op)}));
+                        watch_end();
+                        (acc_st.merge(st), acc_succ, acc_keys)
+                    },
+                )
+                .reduce(
+                    || (Stats::default(), Vec::new(), HashSet::new()),
+                    |a: Acc, b: Acc| {
+                        let (mut succ, mut keys) = (a.1, a.2);
+                        succ.extend(b.1);
+                        if keys.len() < b.2.len() {
+                            let mut big = b.2;
+                            big.extend(keys);
+                            keys = big;
+                        } else {
+                            keys.extend(b.2);
                         }
-                    }
-                    watch_end();
-                    (st, succ)
-                })
-                .collect();
-            // deterministic merge
-            let mut cands: BTreeMap<String, Vec<Op>> = BTreeMap::new();
-            let mut level_transitions = 0u64;
-            for (st, succ) in results {
-                level_transitions += st.counters.get("transitions").copied().unwrap_or(0);
-                total = total.merge(st);
-                for (k, ops) in succ {
-                    if visited.contains(&k) {
-                        continue;
-                    }
-                    match cands.get(&k) {
-                        Some(old) if format!("{:?}", old) <= format!("{:?}", ops) => {}
-                        _ => {
-                            cands.insert(k, ops);
-                        }
+                        (a.0.merge(b.0), succ, keys)
+                    },
+                );
+            let level_transitions = level_stats.counters.get("transitions").copied().unwrap_or(0);
+            total = total.merge(level_stats);
+            // deterministic merge: of several histories reaching one new state the smallest one is kept
+            let mut cands: BTreeMap<u128, Vec<Op>> = BTreeMap::new();
+            for (k, ops) in succ {
+                match cands.get(&k) {
+                    Some(old) if format!("{:?}", old) <= format!("{:?}", ops) => {}
+                    _ => {
+                        cands.insert(k, ops);
                     }
                 }
             }
             transitions += level_transitions;
-            let new_states = cands.len() as u64;
+            let new_states = (cands.len() + last_keys.len()) as u64;
             for k in cands.keys() {
-                visited.insert(k.clone());
+                visited.insert(*k);
             }
+            visited.extend(last_keys);
             levels.push(serde_json::json!({"start": start.name, "depth": d + 1, "frontier": frontier.len(), "transitions": level_transitions, "new_states": new_states}));
             frontier = cands.into_values().collect();
             if frontier.is_empty() {
